@@ -138,7 +138,6 @@ class Runtime:
         # everything imported so far lives forever: keep it out of the collections that
         # World.close_session triggers (worlds are created after this point and stay collectable)
         import hippolyzer.lib.proxy.http_event_manager  # noqa: F401
-        import hippolyzer.lib.proxy.sessions  # noqa: F401
         import mitmproxy.test.tflow  # noqa: F401
         gc.collect()
         gc.freeze()
@@ -862,7 +861,8 @@ def _b1(chk: Check, c, label):
                                             "replays): %s" % common.skey(b)[:1500])
             m = b["mismatches"][0]
             last = b["history"][-1]
-            feat = {"kind": "b1", "act": last["n"], "field": m[0], "tgt_kind": b["tgt"][0]}
+            feat = {"kind": "b1", "act": last["n"], "field": m[0], "tgt_kind": b["tgt"][0],
+                    "after_session_closed": any(h["n"] == "SessionCloses" for h in b["history"])}
             if last["n"] == "Handle":
                 feat["event"] = "request" if not any(h["n"] == "InterceptResponse" for h in b["history"]) else "response"
                 feat["addons"] = list(last["cfg"]["addons"])
@@ -918,8 +918,8 @@ def run(chk: Check):
                           bad=[False, True]), "N1-s%dr%d" % (p // 10, p % 10))
         _b1(chk, dict(kinds=["normal", "wrapper", "proxyonly", "none"], pairs=[12], behaviours=ALLB, naddons=2, faults=["none", "cap"],
                       maxcalls=1, bad=[False]), "N2")
-        _b1(chk, dict(kinds=["normal", "seed", "eq", "wrapper", "proxyonly", "none"], pairs=[12], behaviours=ALLB, naddons=1,
-                      faults=["none", "cap"], maxcalls=2, bad=[False], close=[1, 2]), "close")
+        _b1(chk, dict(kinds=["normal", "seed", "wrapper", "proxyonly", "none"], pairs=[12], behaviours=ALLB, naddons=1,
+                      faults=["none", "cap"], maxcalls=1, bad=[False], close=[1, 2]), "close")
         _b2(chk, 1600, 5, "walks")
     if chk.cov.get("b1_raise_points_expected", 0) and not chk.cov.get("b1_raise_points_reached", 0) and not chk.violations:
         raise common.MachineryError("no scripted fault ever made pump_proxy_event raise: fault injection is vacuous")
